@@ -12,9 +12,11 @@ VERIF = os.path.dirname(os.path.dirname(os.path.abspath(__file__)))
 REPO = os.environ.get("VERIF_REPO", "/repo")
 SRC = os.path.join(REPO, "src")
 BUILD = os.path.join(VERIF, "build")
-OUT = os.path.join(VERIF, "out")
+OUT = os.path.join(VERIF, "out") if os.path.realpath(REPO) == "/repo" else os.path.join(VERIF, "out", "scratch")
 HARNESS = os.path.join(VERIF, "harness")
-EVIDENCE = os.path.join(VERIF, "evidence")
+# evidence committed under /verif/evidence always comes from runs against /repo itself; runs pointed at a scratch
+# tree (VERIF_REPO, used to try seeded changes) write theirs under out/
+EVIDENCE = os.path.join(VERIF, "evidence") if os.path.realpath(REPO) == "/repo" else os.path.join(OUT, "evidence_scratch")
 KNOWN = os.path.join(VERIF, "known_findings.txt")
 NCPU = os.cpu_count() or 16
 
